@@ -24,23 +24,23 @@ def S(s):
         n = int(s)
         if -2**63 <= n < 2**63:
             return V("str", s=s, num={"k": "int", "l": limbs(n)})
-        return V("str", s=s, num={"k": "flt", "l": fbytes(float(s))})
+        # an integer numeral outside int64: it denotes a number no int64 is (never equal to an integer); against a float the comparison is carried out in float64
+        return V("str", s=s, num={"k": "big", "l": fbytes(float(s))})
     if re.match(r"^-?\d+\.\d+$", s):
         return V("str", s=s, num={"k": "flt", "l": fbytes(float(s))})
-    looks = False
-    try:
-        float(s); looks = True
-    except ValueError:
-        looks = s.strip() != s or s.lower().startswith("+") or s.lower() in ("true", "false", "t", "f")      # (a 0x / 0b prefix is not a DECIMAL numeral: decided, never equal to a number)
+    # other spellings: a decimal numeral in a wider sense (explicit + sign, exponent, leading / trailing dot), surrounding blanks and the words the VM reads as
+    # booleans are left open; everything else -- 0x / 0b prefixes, hexadecimal floats, digit-separating underscores, "Inf", "NaN" -- is NOT a decimal numeral:
+    # decided, never equal to a number
+    looks = bool(re.match(r"^[+-]?(\d+\.?\d*|\.\d+)([eE][+-]?\d+)?$", s)) or s.strip() != s or s.lower() in ("true", "false", "t", "f")
     return V("str", s=s, openstr=looks)
 def L(*es): return V("list", es=list(es))
 def M(*kv): return V("map", es=sorted([L(k, v) for k, v in kv], key=lambda p: json.dumps(p["es"][0], sort_keys=True)))
 
 
 def pool(ctx):
-    ints = [0, 1, -1, 2, 5, 7, 12, 16, 31, 100000, 1000000, 2**53, 2**53 + 1, 2**63 - 2, 2**63 - 1, -2**63]
+    ints = [0, 1, -1, 2, 5, 7, 10, 12, 16, 31, 100000, 1000000, 2**53, 2**53 + 1, 2**63 - 2, 2**63 - 1, -2**63]
     floats = [0.0, -0.0, 0.5, 1.0, 1.5, 7.0, 12.0, 100000.0, 1000000.0, 1e21, 2.0**53, 9007199254740994.0, 9.223372036854775807e18, float("inf"), float("-inf"), float("nan")]
-    strs = ["", "a", "abc", "0", "1", "12", "1000000", "-7", "1.5", "0.5", "007", "12.0", "9223372036854775808", "1e5", "0x10", "0X1F", "0b101", "-0x10", "010", " 1", "true", "9223372036854775806", "9223372036854775807", "9007199254740993", "-9223372036854775808"]
+    strs = ["", "a", "abc", "0", "1", "12", "1000000", "-7", "1.5", "0.5", "007", "12.0", "9223372036854775808", "1e5", "0x10", "0X1F", "0b101", "-0x10", "010", " 1", "true", "9223372036854775806", "9223372036854775807", "9007199254740993", "-9223372036854775808", "-9223372036854775809", "1_0", "1_000000", "Inf", "-Inf", "+Inf", "inf", "Infinity", "NaN", "0x1p4", "0x1p-1", "0x.8p1", "1e1", "+10", ".5", "5."]
     vals = [NIL, B(True), B(False)] + [I(n) for n in ints] + [F(x) for x in floats] + [S(s) for s in strs]
     vals += [L(), L(I(1)), L(I(1), I(2)), L(I(2), I(1)), L(F(1.0)), L(S("a")), L(S("1")), L(L(I(1)), L(I(2))), L(L(I(1)), L(I(3))), L(NIL), L(L()),
              M(), M((S("a"), I(1))), M((S("a"), I(2))), M((S("b"), I(1))), M((S("a"), I(1)), (S("b"), L(I(1)))), M((S("a"), F(1.0))), M((I(1), S("x")))]
